@@ -6,6 +6,7 @@ MC_None == {}
 MC_CorruptSizes == 0..5          \* 0, 1, MaxSize-1, MaxSize, MaxSize+1, MaxSize+2  (MaxSize = 3)
 MC_CorruptOffsets == 0..6        \* 0 .. B+2  (B = 4)
 MC_NSetSmall == {0, 1, 4, 5}
+MC_NSetM == {0, 1, 3, 4, 5, 8}
 \* the one-shot checkSum path issues exactly RFC 7693's F calls for every length 0..3B+1 (constant-level: evaluated once)
 ASSUME OneShotIsDefinition
 =============================================================================
